@@ -266,7 +266,7 @@ def main():
         "open Py Xs.Bind Xs.Dict",
         "",
         "/-- an environment for the concrete evaluations (ASCII only; the witnesses hold no QName) -/",
-        "def benv0 : BEnv := ⟨Env.ascii, fun _ => true, fun _ => true⟩",
+        "def benv0 : DEnv := { toBEnv := ⟨Env.ascii, fun _ => true, fun _ => true⟩ }",
         "",
     ]
     for name, (desc, vals) in WITNESSES.items():
